@@ -13,6 +13,19 @@ CLAIMS = {
                 "(values); a re-expression through trigonometric identities would be reported.",
         "technique": "value-flow graph + polynomial normal form / truth-table predicates / dependence sets",
     },
+    "C03": {
+        "text": "Decides the structure of both acceptance estimators for every input: sums divided by the number "
+                "of thrown trajectories; an event is kept exactly when inside the cone / beyond the decay point and "
+                "triggers >= threshold, with the dark-sky cut only under (switch and method=='Optical'), remove-only "
+                "and evaluated on the kept event times; each contribution is weight x 0.826 x exit probability / "
+                "spec_norm / spec_weights_sum with the documented geometric weight; compute() wires triggers, cosine, "
+                "threshold, exit probability, spectrum factors and the eight header keywords of each channel from the "
+                "right producer (checked on the inlined graph of compute() for both modes and both channels). The "
+                "listed consequences (reorder invariance, <= 0.826 x geometric, monotone in threshold) follow from "
+                "this structure. It does NOT decide numerical equality with an independent evaluation.",
+        "technique": "value-flow graph of compute() + polynomial normal form of the integrand, truth-table predicates "
+                     "over polynomial-keyed comparison atoms, length-class typing",
+    },
 }
 
 NOT_APPLICABLE = {
@@ -20,6 +33,6 @@ NOT_APPLICABLE = {
            "double-precision evaluation quantifies over runtime values; no sound static argument in reach bounds "
            "float32 rounding through 2(1-cos t) at t~1e-4, so static analysis cannot address it here",
 }
-for _p in ["C02", "C03", "C04", "C05", "C07", "C08", "C09", "C10", "C11", "C12", "C13", "C14", "C15", "C16",
+for _p in ["C02", "C04", "C05", "C07", "C08", "C09", "C10", "C11", "C12", "C13", "C14", "C15", "C16",
            "C17", "C18", "C19", "C20"]:
     NOT_APPLICABLE[_p] = PENDING
